@@ -199,6 +199,8 @@ class d3TimeScaleMilliseconds(object):
         pass
 
     def range(self, start, stop, step):
+        # the linear tick step is fractional for spans of a few ms
+        step = max(1, int(step))
         return list(
             map(
                 milli2dt,
